@@ -314,7 +314,14 @@ theorem commitC_E (D : Db.Defects) (k tid : Nat) (σ : Db.State) (t : Txn) (ht :
     have := congrArg (Db.State.freshSnap D) h1
     rw [freshSnap_E, freshSnap_E] at this
     exact this.symm
-  simp only [State.commitC, ← h2, hrows, hfresh, E_cat]
+  have hkt : (E k σ).keyTaken tid = σ.keyTaken tid := by
+    have ht' : (E k σ).txns[tid]? = some (eraseTxn k t) := by simp [ht]
+    have hd : (σ.clog.drop k).drop (t.startTs - k) = σ.clog.drop t.startTs := by
+      rw [List.drop_drop]; congr 1; omega
+    unfold State.keyTaken
+    rw [ht', ht, eraseTxn_active hact]
+    simp only [E_clog, E_cat, E_rows, hd]
+  simp only [State.commitC, ← h2, hrows, hfresh, hkt, E_cat]
   by_cases hb : (σ.commitTxn tid).2 = true
   · simp only [hb, if_true]
     split
